@@ -1007,7 +1007,14 @@ func extraC03(c *Ctx) {
 		c.Unresolved("R3.5", "ingress EnsureRoutes / executeLuaForCanary")
 		return
 	}
-	for _, ci := range CallsIn(ens, "ingress.ingressController.executeLuaForCanary") {
+	// the calls may sit in EnsureRoutes or in helpers extracted from it (same package)
+	var luaCalls []ssa.CallInstruction
+	for _, f := range samePkgClosure(p, ens) {
+		if f != exe {
+			luaCalls = append(luaCalls, CallsIn(f, "ingress.ingressController.executeLuaForCanary")...)
+		}
+	}
+	for _, ci := range luaCalls {
 		w := ci.Common().Args[2]
 		t := TermOf(w)
 		if t.Op == "call" && NameMatch(t.Name, "pointer.Int32") && len(t.Args) == 1 && t.Args[0].Op == "const" {
